@@ -102,7 +102,11 @@ const char* ParseDateTime(const char* p, PosixTransition* res) {
             res->date.m.week = static_cast<std::int_fast8_t>(week);
             res->date.m.weekday = static_cast<std::int_fast8_t>(weekday);
           }
+        } else {
+          p = nullptr;  // missing ".weekday"
         }
+      } else {
+        p = nullptr;  // missing ".week.weekday"
       }
     } else if (*p == 'J') {
       int day = 0;
@@ -117,6 +121,8 @@ const char* ParseDateTime(const char* p, PosixTransition* res) {
         res->date.n.day = static_cast<std::int_fast16_t>(day);
       }
     }
+  } else {
+    p = nullptr;  // the ",date" part is not optional
   }
   if (p != nullptr) {
     res->time.offset = 2 * 60 * 60;  // default offset is 02:00:00
